@@ -120,6 +120,7 @@ def run_history(hist, Fragments, fill=b'.'):
         # the REAL append() and extend() - extend once with a list and once with a one-shot generator - must end in the same buffer
         for style in ('list', 'generator'):
             f2 = Fragments() if fill == b'.' else Fragments(fill=fill)
+            refused = False
             for op in hist:
                 try:
                     if op[0] == 'insert':
@@ -129,8 +130,12 @@ def run_history(hist, Fragments, fill=b'.'):
                     else:
                         f2.extend(list(op[1]) if style == 'list' else (c for c in op[1]))
                 except Exception:
-                    pass
+                    # what an extend() that meets a collision half-way leaves behind is not part of the statement (it may store the
+                    # chunks before the colliding one or none): such histories are judged through their inserts only
+                    refused = refused or op[0] == 'extend'
                 trans += 1
+            if refused:
+                continue
             try:
                 out2 = (f2.tobytes(), f2.current_offset)
             except Exception as e:
